@@ -283,7 +283,8 @@ mutual
         if o1 != .normal then (o1, s1)
         else
           match execBlock f body s1 with
-          | (.normal, s2) => fire (s2.setReg .operand (.operand .matrixLight))
+          -- the block's result goes to the block's own light, whatever the body named
+          | (.normal, s2) => fire ((name n s2).setReg .operand (.operand .matrixLight))
           | r => r
 
   def evalRange : Nat → Range → Reg → Reg → S → Except Outcome S
